@@ -140,7 +140,7 @@ fn c17_check_match_composite() {
     core::mem::forget(def);
 }
 
-// @harness props=C10 tier=thorough timeout=3600 mem=44 stubbing=1 replay=native
+// @harness props=C10 tier=thorough timeout=3600 mem=44 stubbing=1 replay=native attempt=1
 // @desc InternalTableDefinition record codec: from_bytes(as_bytes(d)) == d for kind, length, root, widths, alignments and both type names; the record length does not depend on root or length (as create_table_and_flush_table_root requires); field offsets: kind 0, length 1, root flag 9, root 10, key width flag 42 ...
 // @functions <InternalTableDefinition as Value>::{as_bytes,from_bytes}, BtreeHeader::{to_le_bytes,from_le_bytes}, TypeName::{to_bytes,from_bytes}
 // @bound type names "u64"/"u8" (Internal); kind, table length, root (present or not), widths arbitrary
